@@ -553,7 +553,10 @@ func (db *DB) endTxn(t *Txn, commit bool) {
 	}
 	if commit {
 		t.state = txCommitted
-		db.CommitN++
+		if len(t.touched) > 0 {
+			// only transactions that wrote something count as commits (linearization points)
+			db.CommitN++
+		}
 		t.commitSeq = db.CommitN
 	} else {
 		t.state = txAborted
